@@ -550,3 +550,131 @@ Theorem qx_run_clk2pt :
        Clock2p.Clk2pt Clock2p.qx_cf s.
 Proof. exact Clock2p.qx_run_clk2pt. Qed.
 Print Assumptions qx_run_clk2pt.
+
+(* ---- Clock2s ---- *)
+From CiwV.Inv Require Clock2s.
+
+Theorem event_step_clk2s_partial :
+  forall (cf : State2.config) (s : State2.sim) 
+         (d : State2.draws) (s' : State2.sim),
+       Clock2s.scope_s cf = true ->
+       Clock2s.Clk2s cf s ->
+       Clock2.DrawsOK d ->
+       Engine2.event_step cf
+         (RecordSet.set State2.dr (fun _ : State2.draws => d) s) =
+       State2.Ok (tt, s') ->
+       Clock2s.Clk2s cf s' /\ BinInt.Z.le (State2.now s) (State2.now s').
+Proof. exact Clock2s.event_step_clk2s_partial. Qed.
+Print Assumptions event_step_clk2s_partial.
+
+Theorem run_many_clk2s_partial :
+  forall cf : State2.config,
+       Clock2s.scope_s cf = true ->
+       forall (ds : list State2.draws) (s s' : State2.sim),
+       Clock2s.Clk2s cf s ->
+       List.Forall Clock2.DrawsOK ds ->
+       Codec2.run_many cf s ds = State2.Ok s' ->
+       Clock2s.Clk2s cf s' /\ BinInt.Z.le (State2.now s) (State2.now s').
+Proof. exact Clock2s.run_many_clk2s_partial. Qed.
+Print Assumptions run_many_clk2s_partial.
+
+Theorem run_many_monotone2s_partial :
+  forall cf : State2.config,
+       Clock2s.scope_s cf = true ->
+       forall (ds1 ds2 : list State2.draws) (s s1 s2 : State2.sim),
+       Clock2s.Clk2s cf s ->
+       List.Forall Clock2.DrawsOK ds1 ->
+       List.Forall Clock2.DrawsOK ds2 ->
+       Codec2.run_many cf s ds1 = State2.Ok s1 ->
+       Codec2.run_many cf s1 ds2 = State2.Ok s2 ->
+       BinInt.Z.le (State2.now s) (State2.now s1) /\
+       BinInt.Z.le (State2.now s1) (State2.now s2).
+Proof. exact Clock2s.run_many_monotone2s_partial. Qed.
+Print Assumptions run_many_monotone2s_partial.
+
+Theorem Clk2s_means :
+  forall (cf : State2.config) (s : State2.sim),
+       Clock2s.Clk2s cf s ->
+       Clock2r.Clk2r cf s /\
+       Clock2p.LinkD s /\
+       (forall (nd : State2.node) (nc : State2.ncfg) 
+          (sv : State2.server) (c : BinNums.Z),
+        List.In nd (State2.nodes s) ->
+        Engine2.nthZ (State2.cf_nodes cf)
+          (BinInt.Z.sub (State2.n_id nd) (BinNums.Zpos BinNums.xH)) = 
+        Some nc ->
+        Engine2.nd_inf nd = false ->
+        Engine2.nc_slotted nc = false ->
+        List.In sv (State2.n_servers nd) ->
+        State2.sv_cust sv = Some c ->
+        exists (x : State2.ind) (e d : BinNums.Z),
+          Engine2.find_ind c (State2.inds s) = Some x /\
+          State2.i_server x = Some (State2.sv_id sv) /\
+          State2.i_node x = Some (State2.n_id nd) /\
+          State2.i_send x = Some e /\
+          State2.sv_next_end sv = Some d /\
+          BinInt.Z.le (State2.now s) d /\ BinInt.Z.le d e) /\
+       (forall (nd : State2.node) (c : BinNums.Z) (x : State2.ind),
+        List.In nd (State2.nodes s) ->
+        Engine2.nd_inf nd = true ->
+        List.In c (Engine2.all_individuals nd) ->
+        Engine2.find_ind c (State2.inds s) = Some x ->
+        State2.i_server x = None /\ State2.i_node x = Some (State2.n_id nd)) /\
+       (forall (x : State2.ind) (tl : BinNums.Z),
+        List.In x (State2.inds s) ->
+        State2.i_smark x = BinNums.Zpos BinNums.xH ->
+        State2.i_tleft x = Some tl -> BinInt.Z.le BinNums.Z0 tl).
+Proof. exact Clock2s.Clk2s_means. Qed.
+Print Assumptions Clk2s_means.
+
+Theorem LinkB_nodes :
+  forall (cf : State2.config) (s : State2.sim),
+       Clock2s.LinkB cf s ->
+       forall nd : State2.node,
+       List.In nd (State2.nodes s) ->
+       (forall c : BinNums.Z,
+        List.In c (Engine2.all_individuals nd) ->
+        exists x : State2.ind,
+          Engine2.find_ind c (State2.inds s) = Some x /\
+          State2.i_node x = Some (State2.n_id nd)) /\
+       (Clock2s.slot_at cf (State2.n_id nd) = true ->
+        State2.n_servers nd = nil) /\
+       List.NoDup (List.map State2.sv_id (State2.n_servers nd)) /\
+       (forall sv : State2.server,
+        List.In sv (State2.n_servers nd) ->
+        BinInt.Z.le (State2.sv_id sv) (State2.n_highest nd)) /\
+       BinInt.Z.le (State2.n_nint nd) BinNums.Z0 /\
+       State2.n_next_type nd <> BinNums.Zpos (BinNums.xO BinNums.xH) /\
+       State2.n_next_type nd <> BinNums.Zpos (BinNums.xI BinNums.xH).
+Proof. exact Clock2s.LinkB_nodes. Qed.
+Print Assumptions LinkB_nodes.
+
+(* the printed form of this statement does not re-parse (nat / Z scopes): it is the statement of Clock2s.event_step_linkb, verbatim in coq/Inv/Clock2s.v *)
+Theorem event_step_linkb_s : ltac:(let t := type of Clock2s.event_step_linkb in exact t).
+Proof. exact Clock2s.event_step_linkb. Qed.
+Print Assumptions event_step_linkb_s.
+
+(* the printed form of this statement does not re-parse (nat / Z scopes): it is the statement of Clock2s.run_many_linkb, verbatim in coq/Inv/Clock2s.v *)
+Theorem run_many_linkb_s : ltac:(let t := type of Clock2s.run_many_linkb in exact t).
+Proof. exact Clock2s.run_many_linkb. Qed.
+Print Assumptions run_many_linkb_s.
+
+(* the printed form of this statement does not re-parse (nat / Z scopes): it is the statement of Clock2s.interrupt_resume_clock_partial, verbatim in coq/Inv/Clock2s.v *)
+Theorem interrupt_resume_clock_partial : ltac:(let t := type of Clock2s.interrupt_resume_clock_partial in exact t).
+Proof. exact Clock2s.interrupt_resume_clock_partial. Qed.
+Print Assumptions interrupt_resume_clock_partial.
+
+(* the printed form of this statement does not re-parse (nat / Z scopes): it is the statement of Clock2s.clk2s_b_sound, verbatim in coq/Inv/Clock2s.v *)
+Theorem clk2s_b_sound : ltac:(let t := type of Clock2s.clk2s_b_sound in exact t).
+Proof. exact Clock2s.clk2s_b_sound. Qed.
+Print Assumptions clk2s_b_sound.
+
+(* the printed form of this statement does not re-parse (nat / Z scopes): it is the statement of Clock2s.kx_run_clk2s, verbatim in coq/Inv/Clock2s.v *)
+Theorem kx_run_clk2s : ltac:(let t := type of Clock2s.kx_run_clk2s in exact t).
+Proof. exact Clock2s.kx_run_clk2s. Qed.
+Print Assumptions kx_run_clk2s.
+
+(* the printed form of this statement does not re-parse (nat / Z scopes): it is the statement of Clock2s.fx_F12d_inside, verbatim in coq/Inv/Clock2s.v *)
+Theorem fx_F12d_inside : ltac:(let t := type of Clock2s.fx_F12d_inside in exact t).
+Proof. exact Clock2s.fx_F12d_inside. Qed.
+Print Assumptions fx_F12d_inside.
